@@ -1,0 +1,10 @@
+//go:build verif
+
+package downloader
+
+import chart "helm.sh/helm/v4/pkg/chart/v2"
+
+// VerifWriteLock exposes writeLock to the verification harness.
+func VerifWriteLock(chartpath string, lock *chart.Lock, legacyLockfile bool) error {
+	return writeLock(chartpath, lock, legacyLockfile)
+}
